@@ -427,6 +427,60 @@ fn enc(t: &[&str]) -> String {
     }
 }
 
+fn params_of(q: i32, lgwin: i32, flags: &str, hint: usize) -> brotli::enc::BrotliEncoderParams {
+    let mut p = brotli::enc::BrotliEncoderParams::default();
+    p.quality = q;
+    p.lgwin = lgwin;
+    if flags.contains('a') {
+        p.appendable = true;
+    }
+    if flags.contains('c') {
+        p.catable = true;
+        p.use_dictionary = false;
+        p.appendable = true;
+    }
+    if flags.contains('m') {
+        p.magic_number = true;
+    }
+    if flags.contains('l') {
+        p.large_window = true;
+    }
+    if flags.contains('h') {
+        p.size_hint = hint;
+    }
+    p
+}
+
+// ENCS <quality> <lgwin> <flags> <op>...   op = W<hex> (write) | L (flush): a member produced by a call
+// history through CompressorWriter (closed at the end)  -> OK <hex> | ERR | PANIC(..)
+fn encs(t: &[&str]) -> String {
+    let q: i32 = t[1].parse().unwrap();
+    let lgwin: i32 = t[2].parse().unwrap();
+    let flags = t[3].to_string();
+    let ops: Vec<String> = t[4..].iter().map(|x| x.to_string()).collect();
+    match guarded(move || {
+        use std::io::Write;
+        let p = params_of(q, lgwin, &flags, 0);
+        let mut out: Vec<u8> = Vec::new();
+        let mut ok = true;
+        {
+            let mut w = brotli::CompressorWriter::with_params(&mut out, 4096, &p);
+            for op in &ops {
+                if op == "L" {
+                    ok &= w.flush().is_ok();
+                } else {
+                    ok &= w.write_all(&unhex(&op[1..])).is_ok();
+                }
+            }
+        }
+        (ok, out)
+    }) {
+        Ok((true, out)) => format!("OK {}", hexd(&out)),
+        Ok((false, _)) => "ERR".to_string(),
+        Err(e) => e,
+    }
+}
+
 fn dec(t: &[&str]) -> String {
     let data = unhex(t[1]);
     match guarded(move || {
@@ -497,6 +551,7 @@ fn main() {
         "SWEEP" => sweep(t),
         "TSWEEP" => tsweep(t),
         "ENC" => enc(t),
+        "ENCS" => encs(t),
         "DEC" => dec(t),
         "DECG" => decg(t),
         _ => "BADREQ".to_string(),
